@@ -283,6 +283,7 @@ func c15Encode(o *c15Opts) []byte {
 					continue
 				}
 				for run >= 16 {
+					c15ZRL++
 					emitAC(t, 0xF0, 0)
 					run -= 16
 				}
@@ -411,6 +412,11 @@ func c15Encode(o *c15Opts) []byte {
 	}, func(t, rs, v int) {
 		bw.put(ac[t].code[rs], ac[t].size[rs])
 		mag(v, rs&15)
+		bits := v
+		if v < 0 {
+			bits = v + 1<<uint(rs&15) - 1
+		}
+		c15LastSyms = append(c15LastSyms, [2]int{rs, bits})
 	})
 	bw.pad()
 	out = append(out, bw.buf...)
@@ -587,6 +593,12 @@ var c15Decs = []c15Dec{
 }
 
 var c15FailSeen = map[string]int{}
+
+// c15ZRL counts ZRL symbols the reference encoder produced (both passes)
+var c15ZRL int
+
+// c15LastSyms: (RS, amplitude bits) of the AC symbols written by the last c15Encode
+var c15LastSyms [][2]int
 
 func c15Fail(c *hx.Ctx, f hx.Failure) {
 	c15FailSeen[f.Class]++
@@ -948,6 +960,84 @@ func c15Correspondence(c *hx.Ctx) {
 			}
 		}
 	}
+	// ycbcrToRGB (unexported) observed through baseline.Decode: an 8x8 4:4:4 stream whose three data units are flat at
+	// levels (y, cb, cr) with all-ones quantisation tables decodes to 64 copies of ycbcrToRGB(y, cb, cr)
+	for k := 0; k < 300; k++ {
+		lv := [3]int{c.R.Intn(256), c.R.Intn(256), c.R.Intn(256)}
+		if k < 27 {
+			lv = [3]int{[]int{0, 128, 255}[k%3], []int{0, 128, 255}[k/3%3], []int{0, 128, 255}[k/9]}
+		}
+		var q [64]int
+		for i := range q {
+			q[i] = 1
+		}
+		o := &c15Opts{W: 8, H: 8, QT: [][64]int{q, q}}
+		for ci := 0; ci < 3; ci++ {
+			p := &c15Plane{H: 1, V: 1, BW: 1, BH: 1, Coef: make([][64]int, 1)}
+			if ci > 0 {
+				p.Tq = 1
+			}
+			p.Coef[0][0] = (lv[ci] - 128) * 8
+			o.Planes = append(o.Planes, p)
+		}
+		got, _, _, comps, err := baseline.Decode(c15Encode(o))
+		if err != nil || comps != 3 || len(got) != 192 {
+			c.Case(fmt.Sprintf("jpg-ycc2rgb %d %d %d", lv[0], lv[1], lv[2]), "err")
+			continue
+		}
+		c.Case(fmt.Sprintf("jpg-ycc2rgb %d %d %d", lv[0], lv[1], lv[2]), fmt.Sprintf("ok %d %d %d", got[0], got[1], got[2]))
+	}
+	// decodeBlock's AC loop (run/size, ZRL, EOB) observed through baseline.Decode: one 8x8 grey block with all-ones
+	// quantisation whose 63 AC coefficients (zig-zag order) are given; the model decodes its own run-length symbols
+	// and applies the generated IDCT.  The reference encoder's symbol stream is compared with the model's (jpg-acsyms).
+	for k := 0; k < 160; k++ {
+		ac := make([]int, 63)
+		switch {
+		case k < 12: // a single coefficient after a run of exactly n zeros
+			n := []int{0, 14, 15, 16, 17, 30, 31, 32, 33, 47, 48, 62}[k]
+			ac[n] = c.R.Range(1, 60) * (1 - 2*c.R.Intn(2))
+		case k < 40: // two coefficients, long runs between them and a trailing run
+			a, b := c.R.Intn(30), c.R.Intn(63)
+			ac[a], ac[b] = c.R.Range(-40, 40), c.R.Range(-40, 40)
+		case k < 100: // sparse
+			for j := 0; j < 1+c.R.Intn(5); j++ {
+				ac[c.R.Intn(63)] = c.R.Range(-25, 25)
+			}
+		default: // dense with small values, last position occupied half of the time
+			for j := range ac {
+				if c.R.Intn(3) == 0 {
+					ac[j] = c.R.Range(-6, 6)
+				}
+			}
+			if k%2 == 0 {
+				ac[62] = 3
+			}
+		}
+		dc := c.R.Range(-30, 30) * 8
+		var q [64]int
+		for i := range q {
+			q[i] = 1
+		}
+		p := &c15Plane{H: 1, V: 1, BW: 1, BH: 1, Coef: make([][64]int, 1)}
+		p.Coef[0][0] = dc
+		for j := 0; j < 63; j++ {
+			p.Coef[0][c11ZigZag[j+1]] = ac[j]
+		}
+		o := &c15Opts{W: 8, H: 8, QT: [][64]int{q}, GreyID: 1, Planes: []*c15Plane{p}, Optimise: k%2 == 0}
+		c15LastSyms = nil
+		stream := c15Encode(o)
+		var sy []string
+		for _, s := range c15LastSyms {
+			sy = append(sy, fmt.Sprintf("%d:%d", s[0], s[1]))
+		}
+		c.Case("jpg-acsyms "+c11Ints(ac), "ok "+strings.Join(sy, " "))
+		got, _, _, _, err := baseline.Decode(stream)
+		line := "err"
+		if err == nil && len(got) == 64 {
+			line = "ok " + hx.Hex(got)
+		}
+		c.Case(fmt.Sprintf("jpg-acblock %d %s", dc, c11Ints(ac)), line)
+	}
 	// restart-marker skipping
 	for k := 0; k < 200; k++ {
 		n := c.R.Range(0, 40)
@@ -982,7 +1072,7 @@ func c15Correspondence(c *hx.Ctx) {
 	// intervals (reference encoder) must decode to identical bytes — cut at RSTn, DC predictors reset, pad bits dropped
 	for k := 0; k < 24; k++ {
 		w, h, comps, si := c.R.Range(9, 40), c.R.Range(9, 40), c.R.Pick([]int{1, 3}), c.R.Intn(4)
-		px := c11Pack(c11Content(c.R, w, h, comps, 8, k%4), 8)
+		px := c11Pack(c11Content(c.R, w, h, comps, 8, k%7), 8)
 		qt := c15ScaledTables(75)
 		mk := func(restart int) []byte {
 			o := &c15Opts{W: w, H: h, QT: qt, GreyID: 1, Restart: restart, Optimise: k&1 != 0}
@@ -1029,13 +1119,14 @@ func c15(c *hx.Ctx) {
 				continue
 			}
 			for ci, cd := range c11Codecs[:4] {
-				c15EncoderSide(c, cd, w, h, 1+(w*13+h*7+ci*29)%100, (w+h+ci)%3)
+				c15EncoderSide(c, cd, w, h, 1+(w*13+h*7+ci*29)%100, (w+h+ci)%7)
 			}
 		}
 	}
 	for q := 1; q <= 100; q++ {
 		for _, cd := range c11Codecs[:4] {
-			c15EncoderSide(c, cd, c.R.Range(1, 40), c.R.Range(1, 40), q, q%3)
+			c15EncoderSide(c, cd, c.R.Range(1, 40), c.R.Range(1, 40), q, q%7)
+			c15EncoderSide(c, cd, c.R.Range(8, 33), c.R.Range(8, 33), q, 6-(q%2))
 		}
 	}
 	for _, sz := range [][2]int{{64, 64}, {256, 256}, {200, 31}} {
@@ -1050,7 +1141,7 @@ func c15(c *hx.Ctx) {
 				continue
 			}
 			for _, comps := range []int{1, 3} {
-				class := (w + h + comps) % 4
+				class := (w + h + comps) % 7
 				px := c11Pack(c11Content(c.R, w, h, comps, 8, class), 8)
 				var img image.Image
 				if comps == 1 {
@@ -1092,7 +1183,7 @@ func c15(c *hx.Ctx) {
 				if si == 0 && (w+h)%2 == 0 {
 					comps = 1
 				}
-				s, in := c15RefStream(c, w, h, comps, si, 1+(w*7+h*3+si*31)%100, (w+h+si)%4, variant)
+				s, in := c15RefStream(c, w, h, comps, si, 1+(w*7+h*3+si*31)%100, (w+h+si)%7, variant)
 				c.Count("ref:" + c15Samplings[si].Name)
 				if variant&2 != 0 {
 					c.Count("ref:restart")
@@ -1116,6 +1207,7 @@ func c15(c *hx.Ctx) {
 			}
 		}
 	}
+	c.CountN("ref:zrl-symbols", c15ZRL)
 	_ = strings.Join
 }
 
